@@ -161,6 +161,13 @@ def run_builder_timing(spec, props):
         badargs = [c for c in tab["calls"] if (c[0] == "delay" and c[3] != ("ta",)) or (c[0] == "dur" and c[2] != ("ra", "rb"))]
         if badargs:
             A.add(V(prop, fn, "tables", "rule_args", "user rule called with wrong extra arguments %r" % (badargs[0],), pre))
+        # one infectious period per node, one delay per ordered pair: a stochastic user rule asked twice gives two answers
+        seen_c = set()
+        for c in tab["calls"]:
+            kk = c[:2] if c[0] == "dur" else c[:3]
+            if kk in seen_c:
+                A.add(V(prop, fn, "tables", "rule_asked_twice", "user rule consulted more than once for %r: a stochastic rule would give the node/pair two different values" % (kk,), pre)); break
+            seen_c.add(kk)
         want_edges = set()
         missing = None
         for u in nodes:
@@ -222,6 +229,20 @@ def run_builder_xi(spec, props):
     if container == "defaultdict":
         from collections import defaultdict
         xi2 = defaultdict(lambda: -1); xi2.update(xi); zeta2 = defaultdict(lambda: -2); zeta2.update(zeta)
+    elif container == "lazy":
+        # a mapping that produces a node's value on first access (dict subclass with __missing__)
+        class Lazy(dict):
+            def __init__(self, base):
+                dict.__init__(self); self.base = base
+
+            def __missing__(self, k):
+                self[k] = self.base + k
+                return self[k]
+        xi2, zeta2 = Lazy(10), Lazy(20)
+    elif container == "list":
+        xi2, zeta2 = [xi[u] for u in nodes], [zeta[u] for u in nodes]      # indexable by the integer node labels
+    elif container == "array":
+        xi2, zeta2 = np.array([xi[u] for u in nodes]), np.array([zeta[u] for u in nodes])
     else:
         xi2, zeta2 = dict(xi), dict(zeta)
 
@@ -231,7 +252,7 @@ def run_builder_xi(spec, props):
         rt = spec.get("rule_returns", "bool")
 
         def transmission(x, z):
-            k = (x - 10, z - 20)
+            k = (int(x) - 10, int(z) - 20)
             if k not in tab:
                 tab[k] = orc.pick("transmission", [True, False], info=("transmission",) + k)
             # the rule's answer is a truth value: Python bool, numpy.bool_ (what comparisons of numpy floats give) or 0/1
@@ -438,7 +459,7 @@ def specs_c17(tier):
     small = [gr.NAMED[k] for k in ("P2", "P3", "K3")] + [(3, [(0, 1)])]
     for n, es in small + ([gr.NAMED["S4"], gr.NAMED["P4"], gr.NAMED["C4"]] if thorough else [gr.NAMED["S4"]]):
         for fn in ("nonMarkov_directed_percolate_network", "estimate_nonMarkov_SIR_prob_size"):
-            for cont in ("dict", "defaultdict"):
+            for cont in ("dict", "defaultdict", "lazy", "list", "array"):
                 out.append(dict(kind="xi", fn=fn, n=n, edges=es, container=cont))
             if n <= 3:
                 for rt in ("npbool", "int"):
